@@ -264,6 +264,11 @@ m("C16-r5l", "C16", "libwallet/src/internal/scan.rs", "\t\t\twhile labels.contai
 m("C14-r7", "C14", "api/src/owner.rs", "\t\t// Test keychain mask, to keep API consistent\n\t\tlet _ = w.keychain(keychain_mask)?;\n\t\towner::set_active_account(&mut **w, label)\n", "\t\towner::set_active_account(&mut **w, label)?;\n\t\tlet _ = w.keychain(keychain_mask)?;\n\t\tOk(())\n", "C14.R7")
 m("C13-r1b", "C13", "controller/src/controller.rs", "\t\tmatches!(val[\"method\"].as_str(), Some(\"init_secure_api\"))", "\t\tmatches!(val.get(0).unwrap_or(val)[\"method\"].as_str(), Some(\"init_secure_api\"))", "C13.R1")
 
+m("C13-r6a", "C13", "api/src/types.rs", "\t\tif nonce.len() != 12 {", "\t\tif nonce.len() < 12 {", "C13.R6")
+m("C13-r6b", "C13", "controller/src/controller.rs", "\t\tif !req.is_object() || req[\"method\"].as_str() != Some(\"encrypted_request_v3\") {", "\t\tif req[\"method\"].as_str() != Some(\"encrypted_request_v3\") {", "C13.R6")
+m("C13-r6c", "C13", "controller/src/controller.rs", "\t\tif !req.is_object() || req[\"method\"].as_str() != Some(\"encrypted_request_v3\") {", "\t\tif !req.is_object() {", "C13.R6")
+m("C17-r2w", "C17", "libwallet/src/api_impl/owner.rs", "\t\tstd::cmp::max(w.last_confirmed_height()?, w.last_scanned_block()?.height);", "\t\tw.last_confirmed_height()?;", "C17.R2")
+
 
 def for_property(prop):
     return [x for x in M if x["property"] == prop]
